@@ -37,6 +37,12 @@ func run(c sq.Corpus, qs []*sq.Q, o sq.BuildOpts) {
 		res, err1 := sq.IDsOf(r, bluge.NewAllMatches(rq))
 		rq2, _ := q.Real()
 		res2, err2 := sq.IDsOf(r, bluge.NewTopNSearch(total+3, rq2))
+		// and once more with scoring switched off (the searchers built for that mode are different ones)
+		rq3, _ := q.Real()
+		res3, err3 := sq.IDsOf(r, bluge.NewTopNSearch(total+3, rq3).SetScore("none"))
+		if err2 == nil {
+			err2 = err3
+		}
 		errs := ""
 		if err1 != nil {
 			errs = err1.Error()
@@ -44,7 +50,7 @@ func run(c sq.Corpus, qs []*sq.Q, o sq.BuildOpts) {
 			errs = err2.Error()
 		}
 		nq++
-		_ = enc.Encode(map[string]any{"ev": "q", "q": q, "res": res, "res2": res2, "err": errs})
+		_ = enc.Encode(map[string]any{"ev": "q", "q": q, "res": res, "res2": res2, "res3": res3, "err": errs})
 	}
 }
 
@@ -173,7 +179,18 @@ func main() {
 			}
 			qs = append(qs, sq.RandQuery(r, r.Intn(4), width, true))
 		}
-		run(c, qs, sq.BuildOpts{SegVersion: 1 + i%2})
+		o := sq.BuildOpts{SegVersion: 1 + i%2}
+		if i%4 == 3 && len(c.Segs) >= 3 {
+			// the first two segments come out of the offline writer as one MERGED segment
+			dir, err := os.MkdirTemp("/dev/shm", "sprobe")
+			if err == nil {
+				o.Path, o.OfflinePrefix = dir, 2
+			}
+		}
+		run(c, qs, o)
+		if o.Path != "" {
+			_ = os.RemoveAll(o.Path)
+		}
 	}
 	// geo block: every geo query costs the engine about 0.1 s (cell enumeration), so they get their own, smaller budget
 	for i := 0; i < ngeo; i++ {
